@@ -168,6 +168,23 @@ fn rng(start_line: u32, start_column: u32, end_line: u32, end_column: u32) -> ls
     }
 }
 
+/// Verification hook: the raw diff chunks together with the edits derived from them
+#[cfg(mos_verif)]
+pub(crate) fn verif_get_text_edits(
+    old_text: &str,
+    new_text: &str,
+) -> (Vec<(char, String)>, Vec<TextEdit>) {
+    let chunks = diff(old_text, new_text)
+        .into_iter()
+        .map(|c| match c {
+            Chunk::Equal(s) => ('=', s.to_string()),
+            Chunk::Delete(s) => ('-', s.to_string()),
+            Chunk::Insert(s) => ('+', s.to_string()),
+        })
+        .collect();
+    (chunks, get_text_edits(old_text, new_text))
+}
+
 #[cfg(test)]
 mod tests {
     use crate::lsp::formatting::{get_text_edits, rng, RangeKeeper};
